@@ -767,6 +767,23 @@ func visoHuge(o *out, r *rng, n int) {
 // number of directories, so these images are judged by the independent reader alone: structurally valid,
 // both hierarchies equal to the source tree, the same image when opened again.
 func visoBig(o *out, r *rng, ndirs int) {
+	if ndirs > 65536 {
+		// more directories than the path table can number (16-bit): the tree must be refused at open.
+		// Built directly (flat), the tree description would be megabytes long.
+		withTempRoot(func(root string) {
+			os.MkdirAll(filepath.Join(root, "b"), 0o755)
+			for i := 0; i < ndirs-1; i++ {
+				os.Mkdir(filepath.Join(root, "b", fmt.Sprintf("d%05d", i)), 0o755)
+			}
+			impl, _ := runViso(root, visoCase{t: &tree{}, dir: "/b", ps3: false, full: false})
+			if impl != "openerr" {
+				impl = "built " + strings.Join(strings.Fields(impl)[:1], " ")
+			}
+			o.count(fmt.Sprintf("big-tree-dirs:%d", ndirs))
+			o.emit(fmt.Sprintf("visobig %d false", ndirs), impl, "", fmt.Sprintf("big%d", ndirs))
+		})
+		return
+	}
 	t := &tree{}
 	t.add(tnode{path: "/", kind: 'd', mtime: genMtime(r)})
 	t.add(tnode{path: "/b", kind: 'd', mtime: genMtime(r)})
@@ -845,6 +862,7 @@ func init() {
 			visoHuge(o, r, 18)
 			visoBig(o, r, 1100)
 			visoBig(o, r, 2600)
+			visoBig(o, r, 65600)
 			c18Wide(o, r, 24)
 		} else {
 			c18Wide(o, r, 4)
@@ -852,6 +870,7 @@ func init() {
 			visoStream(o, r, 6, 25, true) // a few trees with sparse multi-GiB files (multi-extent records)
 			visoHuge(o, r, 6)
 			visoBig(o, r, 1050)
+			visoBig(o, r, 65600)
 		}
 	}
 	replayFns["viso"] = func(line string) (string, string) {
